@@ -10,7 +10,8 @@
      css_section         get_css_section: the first rule, children before parents, that
                          contains pos (bounds included), with body = between the braces
      css_properties      parse_properties on the events of a rule body (scanned on its own,
-                         last declaration possibly terminated by the end of the body):
+                         last declaration possibly terminated by the end of the body, with or
+                         without a value: C17_css_properties, C17_css_properties_every_tail):
                          exactly the direct declarations, in order, each with exact name and
                          value ranges, value tokens = split_value of the value text shifted to
                          the value, before = end of the previous sibling (or body start),
@@ -39,13 +40,24 @@
    C17_css_properties_ranges / C17_css_declarations_text: those name / value ranges are the layout's, and in the
    body text they slice to the declaration names and values as written.
    C17_select_css_text: select_item_css on the text = next_forest / prev_forest of the sheet's layout tree.
+   Declarations terminated by the END OF THE BODY, on text (model/CssSheetTail.v, proofs/CssBodyTail.v): a body is
+   items of the grammar followed by a gap (STNone), by `name : value` without `;` (STValue), or by `name :` +
+   blanks / comments with neither value nor `;` (STEmpty).
+   C17_css_body_scan_text: the scanner on the body text yields the layout tree's events plus the tail's events;
+   C17_css_properties_body_text: parse_properties -- the function get_css_section applies to the body range of the
+   rule it found -- on any document whose slice [from:to] is that body text returns props_spec_tail of the layout:
+   every direct declaration, the last one with after = end of its value (STValue), or with an empty value range at
+   the end of the body, no value tokens and after = end of the body (STEmpty).
    NOT proved: that split_value on a rendered value list returns exactly the generator's tokens
-   (value tokens are characterised for all strings in props/C16Css.v); declarations terminated by
-   the end of the body are outside the level-B grammar (covered at Level A by C17_css_properties and
-   by the correspondence run / ground-truth oracle of harness/c17_css.py). *)
+   (value tokens are characterised for all strings in props/C16Css.v); that get_css_section on a WHOLE document
+   whose rule body ends with STValue / STEmpty finds that rule with this body range (the level-B sheet grammar has
+   `;`-terminated declarations only; the document-level scan of such a body reports the closing brace as the value's
+   delimiter, which is the listed finding css:select-item-brace-terminated-declaration; this step is covered by the
+   correspondence run / ground-truth oracle of harness/c17_css.py and the Examples below). *)
 From Coq Require Import ZArith List.
 From Emmet Require Import lib.Base model.CssScan model.CssMatch model.CssParse model.CssActions
-     model.CssTree model.CssTreeActions model.CssSheet proofs.CssActionsProofs proofs.CssRender proofs.CssSectionText.
+     model.CssTree model.CssTreeActions model.CssSheet model.CssSheetTail
+     proofs.CssActionsProofs proofs.CssRender proofs.CssSectionText proofs.CssBodyTail.
 Import ListNotations.
 Local Open Scope Z_scope.
 
@@ -86,6 +98,51 @@ Example C17_css_nonvacuous :
   scan (py_slice s 2 10) = body_events [Decl 0 1 1 2 3 3] (Some (4, 5, 5, 6, 7)) /\
   select_item_css s 2 false = Some (mkSI 2 6 [(2, 6); (4, 5)]).
 Proof. vm_compute. repeat split; reflexivity. Qed.
+
+(* The same for every way a body can end (model/CssTreeActions.v, body_tail): all declarations terminated by
+   `;` (TailNone), the last one `name : value` up to the end of the body (TailValue), or the last one
+   `name :` followed by blanks / comments only up to the end of the body (TailEmpty: the scanner, run on the
+   body without its closing brace, reports the name with the offset of the colon and nothing else).  What
+   the code does for TailEmpty: when the recorded colon offset is a colon of the body text, the declaration
+   is reported with its exact name range, an EMPTY value range placed at the end of the body (the offset of
+   the closing brace, where `name:;` has its empty value on the `;`), no value tokens, before = end of the
+   previous sibling (or body start), after = end of the body. *)
+Theorem C17_css_properties_every_tail :
+  forall (fragment : str) (from m : Z) (items : list node) (t : body_tail),
+    seq_ok wf_node 0 m items -> tail_ok fragment t ->
+    props_go fragment from (mkPP None 0 from) [] (body_events_tail items t) = props_spec_tail fragment from items t.
+Proof. exact props_tree_tail. Qed.
+Print Assumptions C17_css_properties_every_tail.
+
+(* ... and a trailing name that has NO colon is not a declaration and is not reported: `a { b:c; color }`
+   (the scanner reports delimiter -1) and `a { color; }` (the scanner reports the offset of the `;`) *)
+Theorem C17_css_properties_bare_name_not_reported :
+  forall (fragment : str) (from m : Z) (items : list node) (ns ne d : Z),
+    seq_ok wf_node 0 m items -> no_colon_at fragment d ->
+    props_go fragment from (mkPP None 0 from) [] (events_forest items ++ [mkEv PropertyName ns ne d]) =
+    props_spec_tail fragment from items TailNone.
+Proof. exact props_tree_bare_name. Qed.
+Print Assumptions C17_css_properties_bare_name_not_reported.
+
+(* non-vacuity: the sheet  a{b:c;color: }  -- the body  b:c;color:<blank>  scanned on its own yields the events
+   of the tree plus the bare name event; the colon offset is a colon; get_css_section reports both declarations,
+   `color` with the empty value (13, 13) on the closing brace and after = 13; select_item_css asked inside the
+   name selects the same (empty) value part; `a{b:c;color }` and `a{b:c;color;}` report `b` only *)
+Example C17_css_empty_tail_nonvacuous :
+  let s := [97;123;98;58;99;59;99;111;108;111;114;58;32;125]%N in
+  let frag := py_slice s 2 13 in
+  scan frag = body_events_tail [Decl 0 1 1 2 3 3] (TailEmpty 4 9 9) /\
+  tail_ok frag (TailEmpty 4 9 9) /\
+  props_spec_tail frag 2 [Decl 0 1 1 2 3 3] (TailEmpty 4 9 9) =
+    [mkCP (2, 3) (4, 5) [(4, 5)] 2 6; mkCP (6, 11) (13, 13) [] 6 13] /\
+  get_css_section s 3 true =
+    Some (mkCS 0 14 2 13 (Some [mkCP (2, 3) (4, 5) [(4, 5)] 2 6; mkCP (6, 11) (13, 13) [] 6 13])) /\
+  option_map si_start (select_item_css s 8 false) = Some 13 /\
+  get_css_section [97;123;98;58;99;59;99;111;108;111;114;32;125]%N 3 true =
+    Some (mkCS 0 13 2 12 (Some [mkCP (2, 3) (4, 5) [(4, 5)] 2 6])) /\
+  get_css_section [97;123;98;58;99;59;99;111;108;111;114;59;125]%N 3 true =
+    Some (mkCS 0 13 2 12 (Some [mkCP (2, 3) (4, 5) [(4, 5)] 2 6])).
+Proof. vm_compute. repeat split; try reflexivity. discriminate. Qed.
 
 (* ================================================================== on TEXT *)
 Theorem C17_css_section_text :
@@ -153,4 +210,38 @@ Example C17_css_text_nonvacuous :
     Some (mkCS 0 18 2 17 (Some [mkCP (2, 3) (4, 5) [(4, 5)] 2 6; mkCP (13, 14) (15, 16) [(15, 16)] 13 17])) /\
   get_css_section (render sh) 9 true =
     Some (mkCS 6 13 8 12 (Some [mkCP (8, 9) (10, 11) [(10, 11)] 8 12])).
+Proof. vm_compute. repeat split; reflexivity. Qed.
+
+(* ================================================================== the end of the body, on TEXT *)
+Theorem C17_css_body_scan_text :
+  forall (body : list item) (t : stail),
+    body_ok body t = true ->
+    scan (render_body body t) = body_events_tail (body_tree body) (body_tail_of body t).
+Proof. exact scan_body_text. Qed.
+Print Assumptions C17_css_body_scan_text.
+
+Theorem C17_css_properties_body_text :
+  forall (body : list item) (t : stail) (pre post : str),
+    body_ok body t = true ->
+    parse_properties (pre ++ render_body body t ++ post) (zlen pre) (zlen pre + zlen (render_body body t)) =
+    props_spec_tail (render_body body t) (zlen pre) (body_tree body) (body_tail_of body t).
+Proof. exact parse_properties_body_text. Qed.
+Print Assumptions C17_css_properties_body_text.
+
+(* non-vacuity on text: the body  b:c;color: /**/  (a terminated declaration, then `color:` followed by a blank and a
+   comment) inside  a{ ... } : well formed, rendered as expected, laid out as TailEmpty 4 9 9, and parse_properties /
+   get_css_section report `color` with the empty value (16, 16) at the end of the body and after = 16 *)
+Example C17_css_body_text_nonvacuous :
+  let decl n v := SDecl [] [LCh n] [] [] [LCh v] [] in
+  let body := [decl 98%N 99%N] in
+  let t := STEmpty [] [LCh 99%N; LCh 111%N; LCh 108%N; LCh 111%N; LCh 114%N] [] [GWs 32%N; GCom []] in
+  let pre := [97; 123]%N in
+  let post := [125]%N in
+  body_ok body t = true /\
+  render_body body t = [98;58;99;59;99;111;108;111;114;58;32;47;42;42;47]%N /\
+  body_tail_of body t = TailEmpty 4 9 9 /\
+  props_spec_tail (render_body body t) (zlen pre) (body_tree body) (body_tail_of body t) =
+    [mkCP (2, 3) (4, 5) [(4, 5)] 2 6; mkCP (6, 11) (17, 17) [] 6 17] /\
+  get_css_section (pre ++ render_body body t ++ post) 3 true =
+    Some (mkCS 0 18 2 17 (Some [mkCP (2, 3) (4, 5) [(4, 5)] 2 6; mkCP (6, 11) (17, 17) [] 6 17])).
 Proof. vm_compute. repeat split; reflexivity. Qed.
